@@ -20,7 +20,7 @@ def cfg_text(c, invariants=('MonPrefix', 'MonFinal', 'Emit'), spec='Spec', prope
     for k in ('HttpItems', 'Items', 'Cfg'):
         lines.append(' %s <- %s' % (k, c[k]))
     for k in ('MaxItems', 'ChunkMax', 'MaxIdle', 'Dts', 'Faults', 'NAddr', 'Reacts', 'ReactAt', 'MaxReacts',
-              'AbandonAt', 'Conforming'):
+              'AbandonAt', 'Conforming', 'AfterClose'):
         lines.append(' %s = %s' % (k, s(c[k])))
     for inv in invariants:
         lines.append('INVARIANT ' + inv)
@@ -33,7 +33,7 @@ def cfg_text(c, invariants=('MonPrefix', 'MonFinal', 'Emit'), spec='Spec', prope
 
 
 DEFAULTS = dict(MaxItems=2, ChunkMax=1, MaxIdle=0, Dts={0}, Faults=set(), NAddr=1, Reacts={"none"}, ReactAt=set(),
-                MaxReacts=0, AbandonAt=set(), Conforming=False)
+                MaxReacts=0, AbandonAt=set(), Conforming=False, AfterClose=False)
 
 
 def slim(tr, kinds=None, drop=('headers', 'msg', 'url', 'host', 'port', 'key', 'len'), keep_reads=False):
@@ -69,7 +69,7 @@ def run_model_instances(run, mc_module, monitor, instances, variants=None, kinds
     def gen(inst):
         consts = dict(DEFAULTS)
         consts.update(inst['consts'])
-        text = cfg_text(consts, invariants=inst.get('invariants', ('MonPrefix', 'MonFinal', 'Emit')))
+        text = inst.get('raw_cfg') or cfg_text(consts, invariants=inst.get('invariants', ('MonPrefix', 'MonFinal', 'Emit')))
         return pipeline.generate(inst.get('module', mc_module), text, simulate=inst.get('simulate'), depth=inst.get('depth'),
                                  seed=run.seed if inst.get('simulate') else None, timeout=inst.get('timeout', 1800),
                                  workers=(max(2, pipeline.NPROC // par) if par > 1 else None))
@@ -110,7 +110,7 @@ def run_model_instances(run, mc_module, monitor, instances, variants=None, kinds
         ndrift = 0
         first = None
         for (tag, b, sc), log in zip(jobs, logs):
-            if tag == 'base' or tag.startswith('='):
+            if (tag == 'base' or tag.startswith('=')) and b.get('obs'):
                 d = replay.drift(b['obs'], log)
                 if d:
                     ndrift += 1
